@@ -117,4 +117,6 @@ def register(lib):
     lib.np["arctan2"] = LibFunc("np.arctan2", _np_arctan2)
     if "concatenate" not in lib.np:
         lib.np["concatenate"] = LibFunc("np.concatenate", _np_concatenate)
+    if "ravel" not in lib.np:
+        lib.np["ravel"] = LibFunc("np.ravel", lambda interp, a: lib.reshape(interp, _arr(a, interp), [-1]))     # row-major flattening
     lib.extern["sympy.physics.wigner.wigner_3j"] = LibFunc("sympy.wigner_3j", lambda interp, *a: w3j(*a))
